@@ -102,6 +102,7 @@ type run struct {
 	pending    int // notifications queued by the environment, not yet delivered
 	lastOpRec  int // reconciles seen when the last file operation ended
 	tmpN       int
+	broken     bool // the event watcher failed and cannot be created again
 }
 
 // perform does one file operation of the scenario (from the driver or from inside the callback).
@@ -179,6 +180,12 @@ func (r *run) onHook(name string, kv []any) {
 	}
 	r.lines = append(r.lines, rec)
 	r.cond.Broadcast()
+}
+
+func (r *run) isBroken() bool {
+	r.mu.Lock()
+	defer r.mu.Unlock()
+	return r.broken
 }
 
 // waitFor blocks until pred holds (checked under the lock on every loop event) or d passed.
@@ -270,7 +277,14 @@ func execute(dir string, sc scenario, interval time.Duration) result {
 		return nil
 	}
 	err := verifexport.ReloadWatch(ctx, path, cb, interval,
-		func(string) (verifexport.ReloadEventWatcher, error) { return w, nil })
+		func(string) (verifexport.ReloadEventWatcher, error) {
+			r.mu.Lock()
+			defer r.mu.Unlock()
+			if r.broken {
+				return nil, fmt.Errorf("no watcher can be created")
+			}
+			return w, nil
+		})
 	if err != nil {
 		panic(err)
 	}
@@ -281,13 +295,27 @@ func execute(dir string, sc scenario, interval time.Duration) result {
 		switch s.A {
 		case "op":
 			r.perform(s)
+		case "break": // the watcher fails at run time; every attempt to create a new one fails too
+			r.mu.Lock()
+			r.broken = true
+			r.pending = 0
+			r.mu.Unlock()
+			r.emit(tracefmt.Rec{"ev": "break"})
+			select {
+			case w.errs <- fmt.Errorf("event queue overflow"): // taken by the loop's select
+			case <-time.After(2 * time.Second):
+				res.skipped++
+			}
 		case "ev": // a queued notification arrives now
 			r.mu.Lock()
 			if r.pending > 0 {
 				r.pending--
 			}
-			n := r.reconciles
+			n, broken := r.reconciles, r.broken
 			r.mu.Unlock()
+			if broken {
+				continue
+			}
 			w.events <- fsnotify.Event{Name: path, Op: fsnotify.Write}
 			if !r.waitFor(2*time.Second, func() bool { return r.reconciles > n }) {
 				res.skipped++
@@ -350,7 +378,7 @@ func execute(dir string, sc scenario, interval time.Duration) result {
 	pending := r.pending
 	lastOpReconciles := r.lastOpRec
 	r.mu.Unlock()
-	for ; pending > 0; pending-- { // notifications still queued arrive at last
+	for ; pending > 0 && !r.isBroken(); pending-- { // notifications still queued arrive at last
 		w.events <- fsnotify.Event{Name: path, Op: fsnotify.Write}
 	}
 	// rest: two reconciliations were logged after the last operation (so one began after it), no
